@@ -59,6 +59,8 @@ pub enum Malform {
     DupHash { j: u16, of: u16 },
     /// source switches to a fork in the middle of the batch
     SpliceFork { at: u16, fork: u8 },
+    /// header j carries the hash of header i of the SAME batch (i < j); header j+1 is re-linked
+    DupInBatch { i: u16, j: u16 },
 }
 
 #[derive(Clone, Debug, Serialize, Deserialize)]
@@ -95,6 +97,7 @@ fn malform_strategy() -> impl Strategy<Value = Malform> {
         1 => Just(Malform::Empty),
         3 => (any::<u16>(), any::<u16>()).prop_map(|(j, of)| Malform::DupHash { j, of }),
         1 => (any::<u16>(), 0u8..3).prop_map(|(at, fork)| Malform::SpliceFork { at, fork }),
+        2 => (any::<u16>(), any::<u16>()).prop_map(|(i, j)| Malform::DupInBatch { i, j }),
     ]
 }
 
@@ -338,7 +341,13 @@ pub fn diff(a: &Snapshot, b: &Snapshot) -> String {
         return format!("pruned ranges {:?} vs {:?}", a.pruned, b.pruned);
     }
     if a.head_height != b.head_height || a.head != b.head {
-        return format!("head {:?} vs {:?}", a.head_height, b.head_height);
+        return format!(
+            "head height {:?} vs {:?}, head hash {:?} vs {:?}",
+            a.head_height,
+            b.head_height,
+            a.head.as_ref().map(hex::encode),
+            b.head.as_ref().map(hex::encode)
+        );
     }
     for (x, y) in a.by_height.iter().zip(&b.by_height) {
         if x != y {
@@ -475,6 +484,20 @@ pub fn resolve_batch(u: &Universe, m: &Model, place: &Place, len: u8, src: Sourc
                 if j >= 1 {
                     obs.label("dup-hash-mid-batch");
                 }
+            }
+        }
+        Malform::DupInBatch { i, j } => {
+            if batch.len() >= 2 {
+                let j = 1 + pick(*j, batch.len() - 1);
+                let i = pick(*i, j);
+                let victim = batch[i].hash();
+                batch[j].commit.block_id.hash = victim;
+                if j + 1 < batch.len() {
+                    if let Some(id) = batch[j + 1].header.last_block_id.as_mut() {
+                        id.hash = victim;
+                    }
+                }
+                obs.label("dup-hash-within-batch");
             }
         }
         Malform::SpliceFork { at, fork } => {
@@ -692,6 +715,11 @@ async fn run_case(case: &Case, prop: &str, obs: &mut Obs<'_>) -> Result<(), Fail
         }
         // a store that disagrees with the model about success makes the rest of the history meaningless
         if ra.is_ok() != expected.is_ok() || rb.is_ok() != expected.is_ok() {
+            if prop == "C21" {
+                // a store that accepted what the model rejects may have broken the chain: look before leaving
+                check_links(&mem, "InMemoryStore", obs).await?;
+                check_links(&redb, "RedbStore", obs).await?;
+            }
             if prop != "C19" {
                 obs.note(format!("history abandoned at {desc}: store result differs from the model (judged by C19)"));
             }
@@ -760,6 +788,7 @@ pub fn run(ctx: &mut Ctx) {
         "rejected-constraints",
         "rejected-hash-exists",
         "dup-hash-mid-batch",
+        "dup-hash-within-batch",
         "reinsert-after-removal",
         "insert-bridges-gap",
         "insert-gap-fill-from-above",
